@@ -5,6 +5,7 @@ Deterministic transition system: state = BUILD string, transition = one real bum
 included, one step each; complete chains from fixed starts crossing every digit-length expansion.
 """
 import datetime as dt
+import re
 
 from .. import pool, world
 from ..stats import Stats
@@ -43,6 +44,7 @@ def bounds(tier, seed):
     return {
         "start_ids": f"every digit string of length 1..{nd}",
         "patterns": ["BUILD", "BLD (ids without leading zero)", "vYYYY0M.BUILD[-TAG] (4..5 digit ids)"],
+        "flag_sets_on_every_37th_id_of_3..5_digits": sorted(FLAGSETS),
         "chains": {"starts": len(CHAIN_STARTS), "length": 2000 if tier == "quick" else 10000},
     }
 
@@ -62,16 +64,29 @@ def explore(tier, seed):
     return pool.run_chunks(run_chunk, chunks)
 
 
-def bump(pattern, old):
-    return world.callback("test", old_version=old, pattern=pattern, pin_date=False, date="2020-06-15")
+# flag sets under which a bump announces a new version; BUILD must step under every one of them
+FLAGSETS = {
+    "default": dict(date="2020-06-15"),
+    "pin-increments+tag": dict(date="2020-06-15", pin_increments=True, tag="rc"),
+    "pin-date+tag": dict(pin_date=True, tag="rc"),
+    "later-date": dict(date="2021-01-01"),
+    "pin-increments+later-date": dict(date="2021-02-01", pin_increments=True),
+    "earlier-date+tag-final": dict(date="2019-01-01", tag="final"),
+}
 
 
-def check_edge(st, pattern, prefix, old, generated, case):
+def bump(pattern, old, flags="default"):
+    return world.callback("test", old_version=old, pattern=pattern, **FLAGSETS[flags])
+
+
+def check_edge(st, pattern, prefix, old, generated, case, flags="default"):
     """One real transition old -> new, all invariants.  Returns new id or None."""
-    o = bump(pattern, prefix + old)
+    o = bump(pattern, prefix + old, flags)  # (old may carry a -TAG suffix for the flag runs)
     st.evaluations += 1
     st.transitions += 1
     st.validated += 1
+    tagged = old
+    old = old.split("-")[0]
     all9 = set(old) == {"9"}
 
     def bad(sig, **d):
@@ -86,10 +101,17 @@ def check_edge(st, pattern, prefix, old, generated, case):
             bad("refused-below-maximum:" + _cls(old))
         return None
     newv = o.new_version
-    if newv is None or not newv.startswith(prefix):
+    if newv is None:
         bad("no-announced-version")
         return None
-    new = newv[len(prefix):]
+    if flags != "default":
+        m = re.match(r"v\d{6}\.(\d+)(?:-\w+)?$", newv)
+        new = m.group(1) if m else ""
+    else:
+        if not newv.startswith(prefix):
+            bad("no-announced-version")
+            return None
+        new = newv[len(prefix):]
     if not new.isdigit():
         bad("non-numeric-successor", new=new)
         return None
@@ -104,7 +126,7 @@ def check_edge(st, pattern, prefix, old, generated, case):
     if int(old) >= 1000 and len(new) < len(old):
         bad("leading-zeros-lost:" + _cls(old), new=new)
     kind = "expand" if len(new) > len(old) else ("pad" if int(old) < 1000 else "step")
-    st.outcomes[f"{pattern}:{kind}"] += 1
+    st.outcomes[f"{pattern}:{kind}" + ("" if flags == "default" else ":flags")] += 1
     return new
 
 
@@ -130,6 +152,12 @@ def run_chunk(chunk):
                 new3 = check_edge(st, "vYYYY0M.BUILD[-TAG]", "v202006.", old, False, ["vYYYY0M.BUILD[-TAG]", old])
                 st.observe(new3)
                 st.states_by_construction += 1
+            if n in (3, 4, 5) and i % 37 == 0:
+                for fl in FLAGSETS:
+                    if fl != "default":
+                        new4 = check_edge(st, "vYYYY0M.BUILD[-TAG]", "v202006.", old + "-beta", False,
+                                          ["vYYYY0M.BUILD[-TAG]", old + "-beta", fl], fl)
+                        st.observe(new4)
             st.states_by_construction += 1
         if lo == 0:
             st.sample({"pattern": "BUILD", "edges": f"{lo:0{n}d}..{hi - 1:0{n}d}", "last": [old, new]})
@@ -158,4 +186,4 @@ def replay(case, st):
         check_edge(st, "BUILD", "", case[3], case[2] > 0, case)
     else:
         prefix = "v202006." if case[0].startswith("v") else ""
-        check_edge(st, case[0], prefix, case[1], False, case)
+        check_edge(st, case[0], prefix, case[1], False, case, case[2] if len(case) > 2 else "default")
